@@ -240,6 +240,11 @@ def tag_obligations(rec, spec, stubs, unit):
     ens = spec.get('ensures', [])
     for ob in rec['obligations']:
         ob['tag'] = None
+        mt = re.match(r'\[(P:C\d+(?:,P:C\d+)*)\]\s*(.*)', ob.get('description', ''))
+        if mt:      # assertion inside a model body that stands for an observer's precondition
+            ob['tag'] = mt.group(1)
+            ob['clause'] = mt.group(2)
+            continue
         m = re.fullmatch(r'(\w+)\.postcondition\.(\d+)', ob['name'])
         if m and m.group(1) == cname:
             i = int(m.group(2)) - 1
